@@ -9,9 +9,11 @@
 //   CASE <id> ret=<RunString result> nmix_after=<engine nmix after the run>
 //   SETUP cells=<n> ishift= bf= bl= corr= stag= mcd= impl= timest=<hex> diffc=<hex> diffc_tr=<hex> L <hex>... D <hex>...
 //   MIX step=<transport_step of the observation> nmix=<n> | i k=f k=f k=f | ...      (or "MIX none")
+//   SMIX stag= exch=<hex> thm=<hex> thim=<hex> | k j=f j=f | ...   Rxn_mix_map at the same moment (or "SMIX none")
 //   CB  <cell>,<step>,<state>,<mixrun>,<water>,<total_h_x>,<total_o_x>,<cb_x>,<master total of Na K Li Ca Mg Cl Br> ...
 //       one item per callback = per punched row, in order (doubles as hex)
 //   SEL <user> rows=<r> cols=<c> | heading;heading... | row | row    cells: D<hex> L<int> S<hex> E X
+//   FINAL <cell> s:<elt>=<hex> x:<elt>=<hex> p:<phase>=<hex> ...   stored solution / exchanger / pure-phase state after the run
 //   WARN <hex warning text>   ERR <hex error text>
 //   END
 #ifndef CPPUNIT
@@ -22,6 +24,9 @@
 #include "CSelectedOutput.hxx"
 #include "Solution.h"
 #include "cxxMix.h"
+#include "Exchange.h"
+#include "ExchComp.h"
+#include "PPassemblage.h"
 #include "hx.hpp"
 #include <sstream>
 
@@ -29,6 +34,7 @@ struct Obs {
   Phreeqc* e = 0;
   bool mix_seen = false;
   std::string mix_line = "MIX none";
+  std::string smix_line = "SMIX none";
   std::string setup_line = "SETUP none";
   std::ostringstream cb;
   long ncb = 0;
@@ -38,6 +44,28 @@ class TestIPhreeqc {   // the friend of Phreeqc and IPhreeqc (this translation u
 public:
   static Phreeqc* engine(IPhreeqc* p) { return p->PhreeqcPtr; }
   static int nmix(Phreeqc* e) { return e->nmix; }
+  // stored state after the run, per cell: solution totals, exchanger totals, pure-phase moles (independent of the BASIC
+  // functions SYS/TOTMOLE/EQUI used in USER_PUNCH)
+  static std::string final_state(Phreeqc* e, int ncells) {
+    std::ostringstream o;
+    for (int i = 1; i <= ncells; i++) {
+      o << "FINAL " << i;
+      cxxSolution* s = Utilities::Rxn_find(e->Rxn_solution_map, i);
+      if (s) for (cxxNameDouble::const_iterator it = s->Get_totals().begin(); it != s->Get_totals().end(); ++it)
+        o << " s:" << it->first << "=" << hx::hexd(it->second);
+      cxxExchange* x = Utilities::Rxn_find(e->Rxn_exchange_map, i);
+      if (x) for (size_t k = 0; k < x->Get_exchange_comps().size(); k++) {
+        const cxxNameDouble& t = x->Get_exchange_comps()[k].Get_totals();
+        for (cxxNameDouble::const_iterator it = t.begin(); it != t.end(); ++it) o << " x:" << it->first << "=" << hx::hexd(it->second);
+      }
+      cxxPPassemblage* pp = Utilities::Rxn_find(e->Rxn_pp_assemblage_map, i);
+      if (pp) for (std::map<std::string, cxxPPassemblageComp>::const_iterator it = pp->Get_pp_assemblage_comps().begin();
+                   it != pp->Get_pp_assemblage_comps().end(); ++it) o << " p:" << it->first << "=" << hx::hexd(it->second.Get_moles());
+      o << "\n";
+    }
+    return o.str();
+  }
+  static int count_cells(Phreeqc* e) { return e->count_cells > e->count_ad_cells ? e->count_cells : e->count_ad_cells; }
   static std::string setup(Phreeqc* e) {
     std::ostringstream o;
     o << "SETUP cells=" << e->count_cells << " ishift=" << e->ishift << " bf=" << e->bcon_first << " bl=" << e->bcon_last
@@ -77,6 +105,17 @@ public:
           o << " " << jt->first << "=" << hx::hexd(jt->second);
       }
       ob->mix_line = o.str();
+      // mobile/immobile exchange fractions built by transport() for -stagnant 1 <exch_f> <th_m> <th_im>
+      std::ostringstream q;
+      q << "SMIX stag=" << e->stag_data.count_stag << " exch=" << hx::hexd(e->stag_data.exch_f) << " thm=" << hx::hexd(e->stag_data.th_m)
+        << " thim=" << hx::hexd(e->stag_data.th_im);
+      for (std::map<int, cxxMix>::const_iterator it = e->Rxn_mix_map.begin(); it != e->Rxn_mix_map.end(); ++it) {
+        q << " | " << it->first;
+        const std::map<int, LDBLE>& mc = it->second.Get_mixComps();
+        for (std::map<int, LDBLE>::const_iterator jt = mc.begin(); jt != mc.end(); ++jt)
+          q << " " << jt->first << "=" << hx::hexd(jt->second);
+      }
+      ob->smix_line = q.str();
     }
     return (double)e->state;
   }
@@ -122,7 +161,7 @@ int main() {
     ret = ip->RunString(input.c_str());
     std::cout << "CASE " << w[1] << " ret=" << ret << " nmix_after=" << TestIPhreeqc::nmix(ob.e) << "\n";
     if (!ob.mix_seen) ob.setup_line = TestIPhreeqc::setup(ob.e);
-    std::cout << ob.setup_line << "\n" << ob.mix_line << "\n";
+    std::cout << ob.setup_line << "\n" << ob.mix_line << "\n" << ob.smix_line << "\n";
     std::cout << "CB" << ob.cb.str() << "\n";
     int ns = ip->GetSelectedOutputCount();
     for (int k = 0; k < ns; k++) {
@@ -141,6 +180,7 @@ int main() {
       }
       std::cout << "\n";
     }
+    if (ret == 0) std::cout << TestIPhreeqc::final_state(ob.e, TestIPhreeqc::count_cells(ob.e));
     const char* ws = ip->GetWarningString();
     std::cout << "WARN " << hx::hex(ws ? ws : "") << "\n";
     if (ret != 0) std::cout << "ERR " << hx::hex(ip->GetErrorString()) << "\n";
